@@ -165,6 +165,8 @@ def coq_deps(target_v):
     """Transitive .v dependencies (inside coq/) of a file, via coqdep."""
     with open(os.path.join(COQ, "_CoqProject")) as f:
         files = [l.strip() for l in f if l.strip().endswith(".v")]
+    if target_v not in files:
+        files.append(target_v)
     rc, out, _ = run(["coqdep", "-Q", ".", "RV"] + files, cwd=COQ)
     deps = {}
     for line in out.splitlines():
